@@ -109,6 +109,12 @@ Qed.
 Theorem permute_index_spec k i : permute_index (2 ^ k) i = rev_bits k i.
 Proof. unfold permute_index. rewrite log2_pow2. reflexivity. Qed.
 
+Theorem permute_index_involutive k i : i < 2 ^ k ->
+  permute_index (2 ^ k) i < 2 ^ k /\ permute_index (2 ^ k) (permute_index (2 ^ k) i) = i.
+Proof.
+  intros Hi. rewrite !permute_index_spec. split; [apply rev_bits_lt | apply rev_bits_involutive; exact Hi].
+Qed.
+
 Section Eval.
 Context {F : Type} (O : FOps F) (L : FLaws O).
 Add Ring Fring2 : (FLaws_ring_theory O L).
